@@ -99,6 +99,8 @@ func main() {
 	switch *stream {
 	case "engine":
 		sum, err = streamEngine(*seed, *n, *driver, *corpus, *dump, *variant)
+	case "http":
+		sum, err = streamHTTP(*seed, *n, *driver)
 	case "helpers":
 		sum, err = streamHelpers(*seed, *n, *driver)
 	case "builder":
